@@ -21,7 +21,8 @@ RULE = (
     "S(inline(P)) with the reference inliner (body copied, parameters substituted, labels renamed per expansion, return "
     "-> jump to the end of the expansion), routine tables equal; (b) the single-file canonical order and the drawn "
     "order / file distribution compile to op-for-op equal results; (c) no op named DECOY may appear (imports resolved "
-    "to the first lookup path). Non-trivial = call depth >= 2 or a macro with callees of different depth, or a return / "
+    "to the first lookup path); (d) multi-file cases: the compiler object that has just compiled one of the imported files "
+    "compiles the main file to the same ops (a workspace build). Non-trivial = call depth >= 2 or a macro with callees of different depth, or a return / "
     "label inside a macro, or >= 2 files; distinct by content hash."
 )
 ASSUMPTIONS = [
@@ -83,6 +84,11 @@ def evaluate(case, stt):
             main_text = ws.texts[case["main_path"]]
             comp, exc = call_guard(lambda: compile_text(main_text, ws.main_path, ws.lookup_paths))
             shown = "\n".join(f"=== {p}\n{t}" for p, t in ws.texts.items())
+            # (d) a workspace build: ONE compiler object compiles an imported file, then the main file
+            shared, shared_exc, lib = None, None, None
+            if exc is None and case["files"]:
+                lib = case["files"][len(main_text) % len(case["files"])]["path"]
+                shared, shared_exc = call_guard(lambda: _workspace_build(ws, lib, main_text))
     else:
         main_text = render.render(case).text
         comp, exc = call_guard(lambda: compile_text(main_text))
@@ -95,6 +101,14 @@ def evaluate(case, stt):
     if nontrivial:
         stt.mark_nontrivial(case)
         stt.add("disagreements_checked", 0)
+    if multi and lib is not None:
+        stt.count("workspace_build_with_one_compiler_object")
+        if shared_exc is not None:
+            fails.append(Failure(f"workspace_build:rejected:{shared_exc[0]}", f"the compiler object that had compiled {lib} before rejects the main file: {shared_exc[1]}\n{shown}"))
+        else:
+            d = canon.first_diff(canon.canon_ops(comp.routine_ops), canon.canon_ops(shared.routine_ops), "ops")
+            if d:
+                fails.append(Failure("workspace_build:ops_differ", f"main file compiled by the compiler object that had compiled {lib} before: {d}\n{shown}"))
     # (c) decoys
     for r in comp.routine_ops:
         for op in r:
@@ -130,6 +144,24 @@ def evaluate(case, stt):
     if len(stt.samples) < 2 and nontrivial and maxdepth >= 2 and not fails:
         stt.sample({"files": shown[:2000]})
     return fails
+
+
+def _workspace_build(ws, lib, main_text):
+    from explorerscript.ssb_converting.ssb_compiler import ExplorerScriptSsbCompiler
+    from vf import spec_tables as T
+    from vf.cut import BudgetExceeded, NoAnswer, StepBudget
+
+    c = ExplorerScriptSsbCompiler(T.PERF_VAR, ws.lookup_paths)
+    try:
+        with StepBudget(6_000_000):
+            try:
+                c.compile(ws.texts[lib], os.path.join(ws.base, lib))
+            except Exception:  # noqa - whether a library file compiles as a top-level file is not the question here
+                pass
+            c.compile(main_text, ws.main_path)
+            return c
+    except BudgetExceeded:
+        raise NoAnswer("workspace build did not finish within the step budget") from None
 
 
 def _has(stmts, pred):
